@@ -99,7 +99,7 @@ def skeletons(pattern, max_rep=2):
 SMALL_CLASS = 6
 
 
-def strings(pattern, max_rep=1, swapcase=True):
+def strings(pattern, max_rep=1, swapcase=True, zero_digits=True):
     """base string of every skeleton (first member of each class); its other-letter-case twin; and for every character
     class node of the pattern and every member of the class one string with that member (first skeleton using the node)"""
     out = []
@@ -116,6 +116,18 @@ def strings(pattern, max_rep=1, swapcase=True):
         add(b)
         if swapcase:
             add(''.join(c[1] if (len(c) == 2 and c[0].swapcase() == c[1]) else c[0] for c in sk))
+        if zero_digits:
+            # the digit 0 is special wherever a number is read (0 legs, 0 metres, leading zeros): every digit cell once, and all
+            zi = [i for i, c in enumerate(sk) if '0' in c and base[i] != '0' and base[i].isdigit()]
+            for i in zi:
+                t = list(base)
+                t[i] = '0'
+                add(''.join(t))
+            if len(zi) > 1:
+                t = list(base)
+                for i in zi:
+                    t[i] = '0'
+                add(''.join(t))
         for i, c in enumerate(sk):
             if c.node is None:
                 continue
